@@ -19,6 +19,7 @@ import (
 	"sort"
 	"strings"
 	"syscall"
+	"time"
 
 	"verif/ev"
 )
@@ -104,6 +105,8 @@ func Build() *Tools {
 	t := &Tools{Hash: h, Dir: dir, Gocc: filepath.Join(dir, "gocc"), Batch: filepath.Join(dir, "gocc-batch")}
 	withLock(filepath.Join(BuildDir(), "build.lock"), func() {
 		os.MkdirAll(dir, 0o777)
+		now := time.Now()
+		os.Chtimes(dir, now, now)
 		pruneOld(h)
 		pruneCache()
 		if _, err := os.Stat(t.Gocc); err != nil {
@@ -151,7 +154,9 @@ func pruneOld(keep string) {
 	}
 	sort.Slice(trees, func(i, j int) bool { return trees[i].mod > trees[j].mod })
 	for i, t := range trees {
-		if i >= 2 {
+		// keep the eight most recent generations, and never remove one touched in the last three hours (another
+		// check may still be running against that tree)
+		if i >= 8 && time.Since(time.Unix(0, t.mod)) > 3*time.Hour {
 			os.RemoveAll(filepath.Join(BuildDir(), t.name))
 		}
 	}
